@@ -236,6 +236,49 @@ func c04(c *Ctx) {
 	a := c.processor()
 	c02bodyCopy(c, a, "C04.build")
 	_ = p
+	// the signature that accompanies an observed VAA is the guardian key's signature over the digest
+	// of THAT VAA on every path: a digest or signature taken from anywhere else (a cache keyed by
+	// message id, say) signs bytes that need not be the digest of the message observed
+	sm := must(p.Method(pkgVAA, "VAA", "SigningMsg"), "vaa.(*VAA).SigningMsg")
+	ns := 0
+	for _, s := range callsTo(p, a.bSig) {
+		if s.Fn != a.hMsg && s.Fn != a.hInj {
+			continue
+		}
+		ns++
+		args := s.Instr.(ssa.CallInstruction).Common().Args
+		v, sig := args[1], args[2]
+		var bad []string
+		for _, leaf := range phiLeaves(resolveSpill(sig)) {
+			leaf = resolveSpill(leaf)
+			ex, ok := leaf.(*ssa.Extract)
+			var call *ssa.Call
+			if ok && ex.Index == 0 {
+				call, _ = ex.Tuple.(*ssa.Call)
+			}
+			if call == nil || !call.Call.IsInvoke() || call.Call.Method.Name() != "Sign" {
+				bad = append(bad, "signature source "+facts.Term(leaf)+" is not the result of guardianSigner.Sign")
+				continue
+			}
+			// Sign(digest.Bytes()) with digest = v.SigningMsg()
+			okDigest := false
+			if bc := asCall(call.Call.Args[0], "(geth/common.Hash).Bytes"); bc != nil {
+				for _, dl := range phiLeaves(resolveSpill(bc.Call.Args[0])) {
+					if smc, isCall := resolveSpill(dl).(*ssa.Call); isCall && smc.Call.StaticCallee() == sm && resolveSpill(smc.Call.Args[0]) == resolveSpill(v) {
+						okDigest = true
+					} else {
+						okDigest = false
+						break
+					}
+				}
+			}
+			if !okDigest {
+				bad = append(bad, "signed bytes "+facts.Term(call.Call.Args[0])+" are not SigningMsg() of the VAA being broadcast")
+			}
+		}
+		R.Check("C04.build", R.Key("C04.build", shortFn(s.Fn), "signs-own-digest"), c.sitePos(p, s), "the signature handed to broadcastSignature is Sign(v.SigningMsg()) of the same v on every path", len(bad) == 0, strings.Join(bad, "; "))
+	}
+	R.Floor("C04.build.signs-own-digest", ns, 1)
 }
 
 // c04reads: the signing functions depend only on the eight body fields.
